@@ -66,6 +66,12 @@ def run(ctx):
     pps = set()
     for _ in range(260 if ctx.quick else 2500):
         pps.add(g.ppat(long_=True))
+    # every bracket shape in the middle / at the start of a segment (a bracket may never match the separator)
+    for b in astgen.BRACKETS:
+        for pre in ('l61', 's', 'q', 'b0[c61]'):
+            pps.add('r:%s.%s.l62:t' % (pre, b))
+            pps.add('r:l61/%s.%s:t' % (pre, b))
+        pps.add('r:%s.l62:t' % b)
     pps = sorted(pps)
     # directed search: patterns on which the regex text differs from the model, read back into ASTs
     F = corr.flags()
